@@ -19,10 +19,9 @@
       OForget nothing is leaked.
     - map_by_val on the non-completing paths: C15_map_by_val_accounting,
       C15_map_by_val_leak_only_after_break, C15_map_by_val_inputs_exactly_once.
-    NOT YET PROVED: that the SOURCE identity of a Cl event is owned by the cloned object at
-    that moment and has not been handed over or dropped before (the events' new identities
-    are covered by C15_history_clone_ids_fresh; the sources only by the correspondence
-    run).  The same accounting for from_fn_! (track = false) is not stated. *)
+    NOT YET PROVED: the same every-path accounting for from_fn_! (track = false, the inputs
+    are [()]s that do not appear in the ledger) is not stated; its completing path and
+    no-UB are C11's. *)
 From Coq Require Import Permutation.
 From KV Require Import Base.Prelude Model.Ledger Model.Destructure
   Proofs.LedgerProofs Proofs.DestructureProofs Proofs.LedgerHistoryProofs.
@@ -99,7 +98,7 @@ Proof. exact map_by_val_built. Qed.
     T::clone), and no op is UB.  [step_post] is the per-step accounting:
       owned before + created by the step = handed/dropped by the step + owned after + leaked,
       created by the step = its clone identities + its push identity,
-      and its clone identities are fresh. *)
+      its clone identities are fresh, and the sources of its clones are owned by the table. *)
 Theorem C15_history_initial_consumer : forall ids n,
   NoDup ids -> (forall i, In i ids -> (i < n)%Z) -> world_ok (mkW [OC (c_new ids)] n).
 Proof. exact world_ok_consumer. Qed.
@@ -162,6 +161,15 @@ Theorem C15_history_clone_ids_fresh : forall w0 w ops os fin,
     ~ In n (world_ids w0) /\ ~ In n (pushed w0 ops) /\
     ~ In n (accounted pre) /\ ~ In n (cloned pre) /\ ~ In n (cloned post).
 Proof. exact history_clone_ids_fresh. Qed.
+
+(** clone_sources_live: the element a T::clone is called on is an identity created earlier
+    in the history (initial, pushed, or returned by an earlier clone) that has not been
+    handed over or dropped before the call, and it differs from the identity returned *)
+Theorem C15_history_clone_sources_live : forall w0 w ops os fin,
+  world_ok w0 -> run w0 ops = RunOk w os -> drop_all (w_objs w) = Some fin ->
+  forall pre s n post, all_events os fin = pre ++ Cl s n :: post ->
+    In s (world_ids w0 ++ pushed w0 ops ++ cloned pre) /\ ~ In s (accounted pre) /\ (s < n)%Z.
+Proof. exact history_clone_sources_live. Qed.
 
 (** the hypotheses are satisfiable: a consumer, its clone, and a clone of the clone whose
     second T::clone panics (the first cloned identity, 6, is dropped by the unwinding) *)
@@ -260,6 +268,7 @@ Print Assumptions C15_history_exactly_once.
 Print Assumptions C15_history_exactly_once_count.
 Print Assumptions C15_history_exactly_once_no_forget.
 Print Assumptions C15_history_clone_ids_fresh.
+Print Assumptions C15_history_clone_sources_live.
 Print Assumptions C15_history_satisfiable.
 Print Assumptions C15_map_by_val_accounting.
 Print Assumptions C15_map_by_val_leak_only_after_break.
